@@ -22,10 +22,13 @@ class C15(Prop):
     design_ref = "§8 C15"
     level_text = ("Invariance is a corollary wherever a function is proved equal to a specification built from "
                   "multisets of ballots and sets of alternatives (all winner rules, score tables, has_condorcet, "
-                  "distances, partition and interval reductions, the axis test, single-crossing soundness: C02, C04-C07, "
-                  "C11, C14, C20 — e.g. scores_perm, prefCount_perm, plurality_regroup, regroup). For the recognisers "
-                  "whose exactness is only tested (C03, C12, C13, C18, C19) invariance is tested metamorphically here, "
-                  "at sizes far beyond brute force, not proved")
+                  "distances, partition and interval reductions, the axis test: C02, C04-C07, C11, C14, C20 — e.g. "
+                  "scores_perm, prefCount_perm, plurality_regroup, regroup), and it is proved outright for the verdicts "
+                  "of the recognisers whose models are exact: is_single_peaked (C15x.elo_relabel / elo_perm), both "
+                  "single-crossing functions (sc_*, scConflict_*), is_single_peaked_on_tree (sptree_*) and the PQ-tree "
+                  "isC1P under row and column permutations (isC1P_rows_perm / isC1P_columns_perm). For the optimisers "
+                  "and the 1-Euclidean recogniser (C12, C18, C19) invariance is tested metamorphically here, at sizes "
+                  "far beyond brute force, not proved")
     level_note = ("metamorphic differential testing on the real code; the Lean side contributes the permutation- and "
                   "regrouping-invariance theorems of the specifications; D17 (1-Euclidean depends on storage order) is "
                   "a known finding")
@@ -54,6 +57,17 @@ class C15(Prop):
         "PrefVerif.C15.condorcet_perm",
         "PrefVerif.C15.thresholdWinners_perm",
         "PrefVerif.C15.approval_perm",
+        "PrefVerif.C15x.elo_defined",
+        "PrefVerif.C15x.elo_relabel",
+        "PrefVerif.C15x.elo_perm",
+        "PrefVerif.C15x.sc_relabel",
+        "PrefVerif.C15x.sc_perm",
+        "PrefVerif.C15x.scConflict_relabel",
+        "PrefVerif.C15x.scConflict_perm",
+        "PrefVerif.C15x.sptree_relabel",
+        "PrefVerif.C15x.sptree_perm",
+        "PrefVerif.C15x.isC1P_rows_perm",
+        "PrefVerif.C15x.isC1P_columns_perm",
     ]
     rule = ("ordinal profiles (planted single-peaked / single-crossing / tree / Euclidean and random; m up to 40, n up "
             "to 300 for the polynomial recognisers, m <= 6 for ILP and partition optimisers) and approval profiles (up "
@@ -126,9 +140,23 @@ class C15(Prop):
         rng.shuffle(votes)
         inst = OrdinalInstance()
         i = 0
+        import numpy as np
         while i < len(votes):
             j = min(len(votes), i + rng.choice([1, 2, 3, 5, 20, 100]))
-            inst.append_order_list(votes[i:j])
+            batch = votes[i:j]
+            via = rng.choice(["order_list", "order_list", "order", "order_array", "vote_map"])
+            if via == "order_list":
+                inst.append_order_list(batch)
+            elif via == "order":
+                for v in batch:
+                    inst.append_order(tuple(c[0] for c in v))
+            elif via == "order_array":
+                inst.append_order_array(np.array([[c[0] for c in v] for v in batch], dtype=object))
+            else:
+                vm = {}
+                for v in batch:
+                    vm[v] = vm.get(v, 0) + 1
+                inst.append_vote_map(vm)
             i = j
         return inst
 
@@ -228,7 +256,7 @@ class C15(Prop):
         for k, s in enumerate(variants):
             prof = [[[s[a] for a in o], c] for o, c in case["profile"]]
             rng.shuffle(prof)
-            # every other variant is built through append_order_list in random batches (a different history)
+            # every other variant is built through the append_* entry points in random batches (a different history)
             out.append((s, self._eval_ordinal(gen.perm(rng, [s[a] for a in alts]), prof, case["small"],
                                               api_rng=rng if k % 2 == 0 else None)))
         return {"base": base, "variants": out}
